@@ -35,7 +35,7 @@ MC_CFG = {
   FaultSets = {{}, {0}, {1}}
   Fault2Sets = {{}, {0}}
   SeidLits = {"0", "1", "9", "18446744073709551615"}
-  Kinds = {"assoc", "est", "mod", "del", "report", "rptrsp", "takeover", "dup"}
+  Kinds = {"assoc", "est", "mod", "del", "report", "rptrsp", "takeover", "dup", "badnode"}
   MaxSlots = 3
   MaxRt = 1
   TxSeq0 = 0
@@ -1355,6 +1355,40 @@ def check_c01_full(pid, replay=None):
 
 
 REGISTRY["C01"] = check_c01_full
+
+_check_c19_pure = REGISTRY["C19"]
+
+
+def check_c19_full(pid, replay=None):
+    """the flag codecs as functions (TS 29.244 tables, TLC-enumerated words) + the cause -> trigger mapping where the data plane
+    really delivers causes: REPORT multicasts with several reports of different causes through the real buffering listener"""
+    if replay:
+        with open(replay) as fh:
+            doc = json.load(fh)
+        if doc.get("note", "").startswith("L2"):
+            L2_PLAN["C19"] = L2_PLAN["C15"]
+            return check_l2(pid, replay)
+        return _check_c19_pure(pid, replay)
+    rc = _check_c19_pure(pid, None)
+    thorough = vlib.tier() == "thorough"
+    mc, scripts, rnd, viols, st = l2_part(pid, "Perio", 6 if thorough else 5, "periodic", 1000 if thorough else 100, 600 if thorough else 50)
+    n = report_violations(pid, viols, st["crashes"], "L2 family Perio")
+    if st["crashes"] and not n:
+        raise Infra("L2 executor died: %s" % st["crashes"][0]["tail"][-1500:])
+    p = os.path.join(vlib.VERIF, "evidence", pid + ".json")
+    with open(p) as fh:
+        ev = json.load(fh)
+    ev["coverage"].update({"l2_states": mc["distinct"], "l2_transitions": mc["generated"], "l2_traces_validated_against_impl": st["traces"],
+                           "l2_events_executed_on_impl": st["events"],
+                           "l2_monitor": "MonL2!VKrep (C19 clause): cause of every kernel report vs. trigger of the forwarded usage report"})
+    ev["coverage"]["traces_validated_against_impl"] = ev["coverage"].get("traces_validated_against_impl", 0) + st["traces"]
+    ev["violations"] = ev.get("violations", 0) + n
+    with open(p, "w") as fh:
+        json.dump(ev, fh, indent=1)
+    return 1 if (rc or n) else 0
+
+
+REGISTRY["C19"] = check_c19_full
 
 _check_c14_pure = REGISTRY["C14"]
 
